@@ -69,13 +69,13 @@ impl Path {
             }
         }
 
-        let cs_cell = OnceCell::new();
-        let _ = cs_cell.set(cs);
-
+        // The text is not cached from the input: it is derived from the components on
+        // demand, so that equal paths always have equal text (and hash), e.g. the
+        // leading dot of a relative path is kept and "03" and "3" name the same index.
         Path {
             components,
             is_relative,
-            components_string: cs_cell,
+            ..Default::default()
         }
     }
 
